@@ -363,6 +363,24 @@ func init() {
 				}
 				w.GWSeries = s
 			}
+			if idx%10 == 7 && w.Cfg.PTF > 0 {
+				// corners of the admissible texture triangle with the extremes of the organic carbon range
+				for i := range w.Soil.Horizons {
+					h := &w.Soil.Horizons[i]
+					switch r.Intn(4) {
+					case 0:
+						h.Clay, h.Silt = r.Range(5, 7), r.Range(86, 90)
+					case 1:
+						h.Clay, h.Silt = r.Range(5, 8), r.Range(7, 10)
+					case 2:
+						h.Clay, h.Silt = r.Range(85, 90), 5
+					default:
+						h.Clay, h.Silt = r.Range(5, 60), r.Range(5, 35)
+					}
+					h.Sand = 100 - h.Clay - h.Silt
+					h.Corg = r.PickF([]float64{0, 0.05, 0.1, 0.5, 3, 6})
+				}
+			}
 			return &Scenario{Prop: "C15", Kind: "single", World: w, Bug: &BuggifySpec{Off: true}}
 		},
 		Exec:  execC15,
@@ -421,6 +439,9 @@ func init() {
 				a, b := r.Range(1, n+10), r.Range(1, n+10)
 				w.GWHi, w.GWLo = min(a, b), max(a, b)
 				w.Cfg.GWPhase = r.Range(0, 359)
+				if r.Bool(0.25) {
+					w.Cfg.GWPhase = r.PickI([]int{0, 0, 1, 80, 180, 359}) // boundary phases, the documented default
+				}
 			}
 			return &Scenario{Prop: "C20", Kind: "single", World: w, Bug: &BuggifySpec{Off: true}}
 		},
